@@ -45,8 +45,8 @@ Theorem C06_barrier_sync_fastpath_refuses : forall s tid k w, blocked s -> 1 <= 
   f_dispatch_queue_try_acquire_barrier_sync_and_suspend 0 tid k w s = NoCommit 0 [].
 Proof. exact refuse_barrier_sync_fastpath. Qed.
 Print Assumptions C06_barrier_sync_fastpath_refuses.
-Theorem C06_sync_width_refuses : forall s tail, blocked s ->
-  exists r, f_dispatch_queue_try_reserve_sync_width 0 tail s = NoCommit r [].
+Theorem C06_sync_width_refuses : forall s tail w, blocked s ->
+  exists r, f_dispatch_queue_try_reserve_sync_width 0 tail s w = NoCommit r [].
 Proof. exact refuse_sync_width. Qed.
 Print Assumptions C06_sync_width_refuses.
 Theorem C06_acquire_async_refuses : forall s, blocked s ->
